@@ -233,8 +233,10 @@ MANIFEST_ENTRY = {
             "(1 + h/2^k)^(2^k) -> exp h and hence entrywise for every diagonal generator (C11_convergence_scalar, "
             "C11_convergence_diagonal_partial), and for every generator [diag(g) | h] WITH translation: all entries of the closed form "
             "converge to those of the matrix exponential (translation column h phi1(g), phi1 = (e^g-1)/g), which is the time-one map of "
-            "the ODE x' = g x + h (C11_convergence_scaling_translation_2d/_3d, C11_limit_is_time_one_flow). Partial: convergence for "
-            "generators with off-diagonal entries in the linear part (matrix exponential proper) and the second-order inverse consistency exp(v) o exp(-v) for smooth fields are explored numerically on "
+            "the ODE x' = g x + h (C11_convergence_scaling_translation_2d/_3d, C11_limit_is_time_one_flow). For 2-D generators with off-diagonal entries that are "
+            "diagonalisable over the reals (G = P diag P^-1: all symmetric ones, all with distinct real eigenvalues) every entry converges "
+            "to that of P diag(e^g) P^-1 = exp G (C11_convergence_diagonalisable_2d). Partial: convergence for "
+            "generators with complex eigenvalues (rotational part), defective ones and 3-D non-diagonal ones (matrix exponential proper) and the second-order inverse consistency exp(v) o exp(-v) for smooth fields are explored numerically on "
             "the implementation only (not proved). The ExpFlow module is traced (arguments handed to expv on all four call paths), and so is the flag StationaryVelocityFieldTransform gives it at construction and after grid_() / grid(). Trusted: Coq kernel, vm_compute, the model of "
             "F.grid_sample (Model/Sampler.v, validated by the correspondence), symtorch, float rounding outside the model.",
 }
